@@ -517,10 +517,11 @@ type State struct {
 	next  string            // allocation counter
 	held  map[string]bool   // symbolic lock set: "<arr>@<ref term>"
 	epoch int               // arrays absent from heap have the version <name>@<epoch>
+	cs    *State            // `opt old=cs`: the state found at the latest lock acquisition on this path (nil: function entry)
 }
 
 func (s *State) clone() *State {
-	n := &State{heap: make(map[string]string, len(s.heap)), sorts: s.sorts, next: s.next, held: map[string]bool{}, epoch: s.epoch}
+	n := &State{heap: make(map[string]string, len(s.heap)), sorts: s.sorts, next: s.next, held: map[string]bool{}, epoch: s.epoch, cs: s.cs}
 	for k, v := range s.heap {
 		n.heap[k] = v
 	}
